@@ -15,7 +15,7 @@
     * a non-fitting assignment is rejected with ValueError and leaves the table rectangular
                                                                       `setitem_reject`, `setitem_reject_step`, `err_unchanged`
 -/
-import PygProofs.Lemmas.TableRect
+import PygProofs.Lemmas.TableRows
 
 namespace Pyg.Props.C01
 open Pyg Table
@@ -176,5 +176,265 @@ theorem rect_run (ops : List Op) (s : Heap) (hs : HeapRect s) : HeapRect (run s 
 
 theorem rect_run_empty (ops : List Op) : ∀ t ∈ run [] ops, ∃ n, t.Rect n :=
   rect_run ops [] HeapRect.nil
+
+/-! ### frame: operations that return a new table never alter their operands -/
+
+/-- a handle that the operation does not write (`Op.writes`: the destination of a table-producing
+operation, the assigned table of `setitem/delitem/update`, nothing for queries) keeps its table — in
+particular every operand of `slice/mask/take/proj/call/relabel/do/concat/+/copy` bound to another
+handle than the destination is unchanged. -/
+theorem frame_step (s : Heap) (op : Op) (i : Nat) (hi : i < s.length) (hw : op.writes ≠ some i) :
+    (step s op).1[i]? = s[i]? := by
+  cases op <;> simp only [Op.writes, ne_eq, Option.some.injEq] at hw <;>
+    simp only [step] <;> (try split) <;> (try rfl) <;>
+    (try exact Heap.bind_getElem? s _ _ i hi hw) <;>
+    (try (simp only [Heap.query_fst])) <;>
+    (try (split <;> first | rfl | exact List.getElem?_set_ne hw | exact Heap.bind_getElem? s _ _ i hi hw))
+
+/-- an operation other than `update` that raises leaves the whole heap unchanged (`update` is a
+sequence of assignments: the ones before the failing one stay, `rect_step` still applies) -/
+theorem err_unchanged (s : Heap) (op : Op) (e : Err) (hu : ∀ h kvs, op ≠ .update h kvs)
+    (he : (step s op).2 = .err e) : (step s op).1 = s := by
+  cases op <;> simp only [step] at he ⊢ <;> (try split at he) <;> (try split) <;>
+    (try rfl) <;> (try exact Heap.query_fst _ _) <;> (try exact Heap.bind_err _ _ _ _ he) <;>
+    (try (simp_all; done)) <;>
+    (try (split at he <;> (try split) <;> first | rfl | exact Heap.bind_err _ _ _ _ he | (simp_all; done)))
+
+/-! ### assignment of a value whose length does not fit -/
+
+/-- on a table with columns, `d[k] = v` raises `ValueError` exactly when `len(v)` is neither the
+number of rows nor 1 (lines 366-375) -/
+theorem setitem_reject (t : Table) (n : Nat) (hr : t.Rect n) (hne : t ≠ []) (k : String) (v : ColVal) :
+    t.setitem k v = .error .value ↔ (v.value.length ≠ n ∧ v.value.length ≠ 1) := by
+  unfold setitem
+  rw [len_rect hr hne]
+  have hemp : t.isEmpty = false := by cases t <;> simp_all
+  simp only [hemp, Bool.or_false]
+  constructor
+  · intro h
+    split at h
+    · cases h
+    · rename_i h1
+      split at h
+      · cases h
+      · rename_i h2
+        exact ⟨by simpa using h1, by simpa using h2⟩
+  · rintro ⟨h1, h2⟩
+    rw [if_neg (by simpa using h1), if_neg (by simpa using h2)]
+
+/-- the only error of an assignment to a rectangular table is that `ValueError` -/
+theorem setitem_err (t : Table) (n : Nat) (hr : t.Rect n) (k : String) (v : ColVal) (e : Err)
+    (h : t.setitem k v = .error e) : e = .value ∧ t ≠ [] := by
+  unfold setitem at h
+  rw [len_rect' hr] at h
+  simp only at h
+  split at h
+  · cases h
+  · rename_i h1
+    split at h
+    · cases h
+    · cases h
+      refine ⟨rfl, ?_⟩
+      intro he; subst he; simp at h1
+
+/-- in the history machine: the rejected assignment leaves the heap — hence the table — as it was -/
+theorem setitem_reject_step (s : Heap) (h : Nat) (t : Table) (n : Nat) (ht : s[h]? = some t)
+    (hr : t.Rect n) (hne : t ≠ []) (k : String) (v : ColVal)
+    (hbad : v.value.length ≠ n ∧ v.value.length ≠ 1) :
+    step s (.setitem h k v) = (s, .err .value) := by
+  simp only [step, ht, (setitem_reject t n hr hne k v).2 hbad]
+
+/-- a table without columns accepts a first column of any length -/
+theorem setitem_first (k : String) (v : ColVal) : Table.setitem [] k v = .ok [(k, v.value)] := by
+  simp [setitem, Table.len, lens, Table.set, Table.has]
+
+/-! ### len, shape, cells, iteration -/
+
+/-- `len(d)` is the number of records and `d.shape` is (records, columns) -/
+theorem len_shape (s : Heap) (h : Nat) (t : Table) (n : Nat) (ht : s[h]? = some t) (hr : t.Rect n) :
+    step s (.len h) = (s, .val (natVal t.rows.length)) ∧
+    step s (.shape h) = (s, .val (.tuple [natVal t.rows.length, natVal t.cols.length])) := by
+  simp only [step, ht, len_rect' hr, Heap.query, Except.map, rows, cols, List.length_map,
+    List.length_range, and_self]
+
+/-- `d[i][c] == d[c][i]`: row `i` (python index, negative from the end) exists iff `i` is in range, it
+carries exactly the table's columns, and its cell under `c` is entry `i` of column `c` -/
+theorem cell_comm (t : Table) (n : Nat) (hr : t.Rect n) (hne : t ≠ []) (i : Int) :
+    (∀ j, pyIdx n i = some j →
+        t.getRow i = .ok (t.cols.zip (t.row j)) ∧
+        ∀ k c, t.col? k = some c →
+          ((t.cols.zip (t.row j)).find? (·.1 == k)).map (·.2) = some (c.getD j .none)) ∧
+    (pyIdx n i = Option.none → t.getRow i = .error .index) := by
+  have hrow : ∀ j, t.cols.zip (t.row j) = t.map fun c => (c.1, c.2.getD j .none) := by
+    intro j; simp [cols, row, List.zip_map']
+  constructor
+  · intro j hj
+    constructor
+    · rw [hrow]
+      unfold getRow
+      apply mapE_of_ok
+      intro c hc
+      rw [hr c hc, hj]
+    · intro k c hc
+      rw [hrow, List.find?_map]
+      unfold col? at hc
+      cases hf : t.find? (·.1 == k) with
+      | none => simp [hf] at hc
+      | some e =>
+        simp only [hf, Option.map_some, Option.some.injEq] at hc
+        have : t.find? ((fun x => x.1 == k) ∘ fun c => (c.1, c.2.getD j Cell.none)) = some e := by
+          simpa [Function.comp_def] using hf
+        rw [this]
+        simp [hc]
+  · intro hnone
+    cases t with
+    | nil => exact absurd rfl hne
+    | cons c t =>
+      simp only [getRow, mapE]
+      rw [hr c List.mem_cons_self, hnone]
+
+/-- iteration yields exactly the rows `d[0], d[1], ..., d[len-1]`, each with the table's columns -/
+theorem iter_rows (t : Table) (n : Nat) (hr : t.Rect n) (hne : t ≠ []) :
+    t.iter.length = n ∧
+    ∀ i (hi : i < t.iter.length), t.getRow (i : Int) = .ok t.iter[i] := by
+  have hl : t.iter.length = n := by simp [iter, rows_length hr hne]
+  refine ⟨hl, ?_⟩
+  intro i hi
+  have hin : i < n := hl ▸ hi
+  have hp : pyIdx n (i : Int) = some i := by
+    unfold pyIdx
+    rw [if_pos ⟨by omega, by omega⟩]
+    simp
+  rw [((cell_comm t n hr hne i).1 i hp).1]
+  simp [iter, rows]
+
+/-! ### row selection = the list-of-records operation -/
+
+/-- `d[mask]` with a mask of the table's length keeps exactly the flagged records, in order, and all
+the columns — also when no row survives -/
+theorem mask_rows (t : Table) (n : Nat) (hr : t.Rect n) (hne : t ≠ []) (m : List Bool) (hm : m.length = n) :
+    ∃ t', t.getMask m = .ok t' ∧ t'.cols = t.cols ∧
+      t'.rows = ((t.rows.zip m).filter (·.2)).map (·.1) :=
+  getMask_full hr hne m hm
+
+/-- a mask that is neither of the table's length nor of length 1 is rejected (for tables of two or more
+rows; `zipper` repeats the single row of a one-row table) -/
+theorem mask_reject (t : Table) (n : Nat) (hr : t.Rect n) (hne : t ≠ []) (m : List Bool)
+    (hn : n ≠ 1) (h1 : m.length ≠ 1) (h2 : m.length ≠ n) : t.getMask m = .error .value := by
+  unfold getMask maskIdx zipper2
+  rw [nrows_of_rect hr hne]
+  have : lens [(List.range n).length, m.length] = .error .value := by
+    simp [lens, hn, h1]
+    omega
+  rw [this]
+
+/-- `d[[i, j, ...]]` succeeds iff every index is in range and then lists those records in that order
+(repeats allowed) -/
+theorem take_rows (t t' : Table) (n : Nat) (hr : t.Rect n) (hne : t ≠ []) (is : List Int)
+    (h : t.getTake is = .ok t') :
+    t'.cols = t.cols ∧ (∀ i ∈ is, (pyIdx n i).isSome) ∧
+      t'.rows = is.filterMap fun i => (pyIdx n i).map t.row :=
+  getTake_ok hr hne h
+
+/-- `d[a:b:s]` is the list slice of the records -/
+theorem slice_rows (t : Table) (n : Nat) (hr : t.Rect n) (hne : t ≠ []) (a b s : Option Int) (hs : s ≠ some 0) :
+    ∃ t', t.getSlice a b s = .ok t' ∧ t'.cols = t.cols ∧
+      t'.rows = (sliceIdx n a b (s.getD 1)).map t.row := by
+  refine ⟨_, getSlice_eq_gather hr a b s hs, cols_gatherRows t _, rows_gatherRows hne _⟩
+
+/-- the index list of the full slice `[:]` -/
+theorem sliceIdx_all (n : Nat) : sliceIdx n Option.none Option.none 1 = List.range n := by
+  simp only [sliceIdx, show (1 : Int) > 0 by decide, if_true]
+  apply List.ext_getElem
+  · simp; omega
+  · intro i h1 h2
+    simp
+
+/-- `[a:b]` with `0 ≤ a ≤ b ≤ n` selects `a, a+1, ..., b-1` -/
+theorem sliceIdx_range (n a b : Nat) (hab : a ≤ b) (hbn : b ≤ n) :
+    sliceIdx n (some a) (some b) 1 = List.range' a (b - a) := by
+  have ha : ¬ ((a : Int) < 0) := by omega
+  have hb : ¬ ((b : Int) < 0) := by omega
+  have ha' : min (a : Int) n = a := by omega
+  have hb' : min (b : Int) n = b := by omega
+  simp only [sliceIdx, show (1 : Int) > 0 by decide, if_true, ha, hb, if_false, ha', hb']
+  apply List.ext_getElem
+  · simp; omega
+  · intro i h1 h2
+    simp
+    omega
+
+/-- `[::-1]` reverses -/
+theorem sliceIdx_reverse (n : Nat) : sliceIdx n Option.none Option.none (-1) = (List.range n).reverse := by
+  simp only [sliceIdx, show ¬ ((-1 : Int) > 0) by decide, if_false]
+  apply List.ext_getElem
+  · simp; omega
+  · intro i h1 h2
+    simp at h1 h2 ⊢
+    omega
+
+/-! ### concatenation -/
+
+/-- the columns of `concat(t1, t2, ...)` are those of any operand, and each is the operands' columns
+appended in order, a table without the column contributing one `None` per row -/
+theorem concat_col (ts : List Table) (k : String) (hk : ∃ t ∈ ts, k ∈ t.cols) :
+    (Table.concat ts).col? k =
+      some (ts.flatMap fun t => (t.col? k).getD (List.replicate t.nrows .none)) := by
+  unfold Table.concat
+  apply col?_map_keys
+  rw [mem_dedupKeys]
+  obtain ⟨t, ht, hkt⟩ := hk
+  exact List.mem_flatMap.2 ⟨t, ht, hkt⟩
+
+theorem concat_cols (ts : List Table) (k : String) : k ∈ (Table.concat ts).cols ↔ ∃ t ∈ ts, k ∈ t.cols := by
+  simp [Table.concat, cols, List.map_map, Function.comp_def, mem_dedupKeys, List.mem_flatMap]
+
+/-- concatenation appends the operands' records in order: the records of the result are, table after
+table, each table's records read over the union of the columns with `None` for an absent column -/
+theorem concat_rows (ts : List Table) (hr : ∀ t ∈ ts, ∃ n, t.Rect n) (hk : (Table.concat ts).cols ≠ []) :
+    (Table.concat ts).rows = ts.flatMap fun t => (List.range t.nrows).map fun i =>
+      (Table.concat ts).cols.map fun k => (t.getCol k).getD i .none := by
+  have hcols : (Table.concat ts).cols = dedupKeys (ts.flatMap Table.cols) := by
+    simp [Table.concat, cols, List.map_map, Function.comp_def]
+  have hn : (Table.concat ts).nrows = (ts.map Table.nrows).sum := by
+    apply nrows_of_rect (concat_rect hr)
+    intro he; rw [he] at hk; exact hk rfl
+  have := rows_flatMap ts Table.nrows (dedupKeys (ts.flatMap Table.cols)) (fun k t => t.getCol k)
+    (fun k _ t ht => by obtain ⟨n, hn⟩ := hr t ht; exact getCol_length k hn)
+  rw [hcols, ← this]
+  unfold rows
+  rw [hn]
+  apply List.map_congr_left
+  intro j _
+  simp [row, Table.concat, List.map_map, Function.comp_def]
+
+/-! ### non-vacuity: the hypotheses are satisfiable on non-trivial values -/
+
+/-- a 3-row, 2-column table; the history below builds it, masks it to nothing, assigns, concatenates -/
+def tbl : Table := [("a", [.int 1, .none, .int 3]), ("b", [.str "x", .str "y", .flt 10])]
+
+example : tbl.Rect 3 ∧ tbl ≠ [] := by decide
+example : HeapRect [tbl, []] := by
+  intro t ht; simp at ht; rcases ht with rfl | rfl
+  · exact ⟨3, by decide⟩
+  · exact ⟨0, by decide⟩
+example : tbl.getMask [true, false, true] = .ok [("a", [.int 1, .int 3]), ("b", [.str "x", .flt 10])] := by rfl
+example : tbl.getMask [false, false, false] = .ok [("a", []), ("b", [])] := by rfl
+example : tbl.setitem "c" (.many [.int 1, .int 2]) = .error .value := by rfl
+example : tbl.setitem "c" (.one (.int 7)) = .ok (tbl ++ [("c", [.int 7, .int 7, .int 7])]) := by rfl
+example : tbl.getTake [-1, 0, 0] = .ok [("a", [.int 3, .int 1, .int 1]), ("b", [.flt 10, .str "x", .str "x"])] := by rfl
+example : tbl.getSlice Option.none Option.none (some (-1)) =
+    .ok [("a", [.int 3, .none, .int 1]), ("b", [.flt 10, .str "y", .str "x"])] := by rfl
+example : Table.concat [tbl, [("b", [.str "z"]), ("c", [.int 9])]] =
+    [("a", [.int 1, .none, .int 3, .none]), ("b", [.str "x", .str "y", .flt 10, .str "z"]),
+     ("c", [.none, .none, .none, .int 9])] := by decide
+example : (Table.concat [tbl, [("b", [.str "z"]), ("c", [.int 9])]]).cols ≠ [] := by decide
+/-- a history: build, mask to empty, assign to the empty table, concatenate, reject a misfit -/
+example : (run [] [.new 0 .none Option.none [("a", .many [.int 1, .int 2]), ("b", .one (.str "x"))],
+      .mask 1 0 [false, false], .setitem 1 "c" (.many []), .concat 2 [0, 1], .setitem 2 "d" (.many [.int 1])]) =
+    [[("a", [.int 1, .int 2]), ("b", [.str "x", .str "x"])],
+     [("a", []), ("b", []), ("c", [])],
+     [("a", [.int 1, .int 2]), ("b", [.str "x", .str "x"]), ("c", [.none, .none]), ("d", [.int 1, .int 1])]] := by
+  decide
 
 end Pyg.Props.C01
